@@ -74,14 +74,14 @@ A("transcribed, the NaN + ignores-mask clause is unspecified), C19 (declared nam
 A("oracle only), C20 (the regridding is `reproject`; adaptive: no value check), dask clauses of C01 / C08 / C10 (payloads")
 A("are computed before comparison; laziness itself is not modelled).\n")
 A("### 0.3 Seeded changes: which checks catch which changes\n")
-A(f"{len(seeds)} changes (four rounds of 3 per property, a fifth for ten of them and a sixth round of 2 for eighteen; the later rounds asked for changes that only show through state, unusual argument")
+A(f"{len(seeds)} changes (four rounds of 3 per property, a fifth for ten of them and a sixth round of 2 for every property (4 for C06 C11 C13 C15); the later rounds asked for changes that only show through state, unusual argument")
 A("forms, inputs that are themselves results, or coinciding circumstances) were produced by fresh sub-agents that saw")
 A("only the property text and a scratch worktree, confirmed by me in that worktree (demo passes clean / fails patched, pinned")
 A("suite's stable set still passes), stored under `seeded/<id>-<k>/` and run against the check with `tools/try_seed.sh` (apply")
 A(f"to /repo, check, `git checkout -- .`).  All {len(seeds)} are detected by the current checks (`tools/rerun_seeds.py` re-runs them")
-A("all; result in `seeded/STATUS.json`); three of them are caught by another property's check (`meta.json` names it in")
+A("all; result in `seeded/STATUS.json`); four of them are caught by another property's check (`meta.json` names it in")
 A("`detected_by`): C06-11 leaves every clause of C06 true and is caught by the C09 check, C17-14 needs a multi-table extra")
-A("coordinate, which the C17 generator does not attach, and is caught by the C02 check; C18-17 sits in the cube-level\n`_get_crop_by_values_item` (units of a never-evaluated FITS WCS) and is caught by the C04 check.  One fourth-round change for C17 was")
+A("coordinate, which the C17 generator does not attach, and is caught by the C02 check; C18-17 sits in the cube-level\n`_get_crop_by_values_item` (units of a never-evaluated FITS WCS) and is caught by the C04 check.  C17-17 (a numpy-integer cube index in\n`NDCubeSequence.__getitem__` leaves the common axis unrenumbered) needs a sliced sequence, which the C17 generator does not build, and is caught by the C11 check.  One fourth-round change for C17 was")
 A("neutralised by a repair made meanwhile (`extra_coords.add` now turns numpy-integer axes into ints) and is not stored.")
 A(f"{len(missed)} were missed (or caught only through the model) by the first version of")
 A("their check and led to the strengthening noted below; patches that no longer applied after a later repair of the same")
@@ -108,7 +108,8 @@ A("once (C18-8); index tuples that stop before the interesting axis (C12-9); ndc
 A("the expected correlation matrix stated from the construction, never asked of the wrapper (C01-13/14); a sequence object")
 A("that held and served another line-up of cubes before its `data` list was edited in place (C12-13: stale per-list cache);")
 A("whole factors as Python ints / integer arrays next to fractional offsets (C19-17), numpy bools as switches (C04-17), a meshed")
-A("SkyCoord on two axes of an already sliced cube (C09-17).\n")
+A("SkyCoord on two axes of an already sliced cube (C09-17); editing the RESULT's list of cubes in place and looking at the")
+A("source (C11-16: seq[:] handed out the source's own list); numpy integers also in the slices that PREPARE a case (C06-19).\n")
 A(f"### 0.4 Genuine defects repaired in /repo (`fix:` commits; the pinned suite passes 174/174 after each)\n")
 for x in kf['fixed']:
     A("* " + x[len('fixed: '):])
